@@ -50,6 +50,20 @@ def run(res, replay=None):
                               dict(ctx, cell=gi, impl=sr, exact=ex))
             elif not (sr >= 2 * far * (1 - 1e-12) - 1e-300):
                 res.violation("C16:safety-radius-small" + geo.mismatch_class(rec), f"cell {gi}: safety radius {sr} < 2 x distance {far} to its farthest vertex", dict(ctx, cell=gi))
+        # the same lower bound on the route through cells with face data (3D): Voronoi::from(&integrator.with_faces())
+        wf = o.get("wf")
+        if isinstance(wf, dict) and isinstance(wf.get("vor"), dict):
+            vwf = T.decode_vor(wf["vor"])
+            for gi, m in rec["model"].items():
+                if m is None or gi >= len(vwf["cells"]):
+                    continue
+                sr = vwf["cells"][gi]["safety_radius"]
+                ex = 2.0 * math.sqrt(float(m["r2"]))
+                ptol = max(100 * max(tol["eps"][:dim]), 10 * tol["rel"] * lmax)
+                if not (sr >= ex - 2 * ptol):
+                    res.violation("C16:safety-radius-value-with-faces" + geo.mismatch_class(rec), f"cell {gi}: the safety radius {sr} reported through the cells with face data is smaller than twice the distance {ex} "
+                                  "to the farthest point of the exact cell", dict(ctx, cell=gi, impl=sr, exact=ex))
+                    break
         # metamorphic inputs: a few per record (non-periodic and periodic alike)
         n = len(inp["gens"])
         if inp.get("mask") is None and n >= 2 and len(meta_inputs) < (40 if tier == "quick" else 400):
